@@ -55,16 +55,17 @@ type vGor struct {
 }
 
 var vSch struct {
-	mu      sync.Mutex
-	on      bool
-	steps   []vSchedStep
-	gids    map[[2]uint32]uint32
-	gs      map[uint32]*vGor
-	byGoid  map[int64]*vGor
-	arrived chan struct{}
+	mu       sync.Mutex
+	on       bool
+	steps    []vSchedStep
+	gids     map[[2]uint32]uint32
+	gidsRev  map[uint32][2]uint32
+	gs       map[uint32]*vGor
+	byGoid   map[int64]*vGor
+	arrived  chan struct{}
 	finished chan struct{}
-	log     []string
-	nextUnk uint32
+	log      []string
+	nextUnk  uint32
 }
 
 func init() {
@@ -116,9 +117,11 @@ func vSchedStart() bool {
 	vSch.mu.Lock()
 	vSch.steps = f.Steps
 	vSch.gids = map[[2]uint32]uint32{}
+	vSch.gidsRev = map[uint32][2]uint32{}
 	for k, v := range f.Gids {
 		id, _ := strconv.ParseUint(k, 10, 32)
 		vSch.gids[v] = uint32(id)
+		vSch.gidsRev[uint32(id)] = v
 	}
 	vSch.gs = map[uint32]*vGor{}
 	vSch.byGoid = map[int64]*vGor{}
@@ -308,20 +311,42 @@ func vSchedController() {
 	const reach = 3 * time.Second
 	steps := vSch.steps
 	skipped, extra, granted, blockedN := 0, 0, 0, 0
-	lookahead := func(i int, gid uint32, site string) bool {
+	// matches: is site the position of one of the next engine steps of goroutine gid?
+	matches := func(i int, gid uint32, site string) bool {
 		n := 0
-		for j := i + 1; j < len(steps) && n < 12; j++ {
+		for j := i; j < len(steps) && n < 12; j++ {
 			if steps[j].G == gid {
 				n++
 				if vEffSite(&steps[j]) == site {
 					return true
 				}
 			}
-			if steps[j].Partner == gid && steps[j].PSite == site {
-				return true
+			if steps[j].Partner == gid {
+				n++
+				if steps[j].PSite == site {
+					return true
+				}
 			}
 		}
 		return false
+	}
+	// advance: the engine's goroutine runs on until its next *engine-visible* operation; pass
+	// the native yield points in between (operations the engine treats as invisible)
+	advance := func(i int, g *vGor, d time.Duration) {
+		for k := 0; k < 64; k++ {
+			if !vAwait(g, d) {
+				return
+			}
+			vSch.mu.Lock()
+			done, site := g.done, g.site
+			vSch.mu.Unlock()
+			if done || matches(i, g.id, site) {
+				return
+			}
+			extra++
+			vSchedLog("g%d: passing native yield point %s (no engine step)", g.id, site)
+			vGrant(g, vFree)
+		}
 	}
 	for i := range steps {
 		s := &steps[i]
@@ -329,81 +354,89 @@ func vSchedController() {
 		g := vSch.gs[s.G]
 		vSch.mu.Unlock()
 		if g == nil {
+			// not started yet? its parent has to run on to the go statement
+			if k, ok := vSch.gidsRev[s.G]; ok {
+				vSch.mu.Lock()
+				pg := vSch.gs[k[0]]
+				vSch.mu.Unlock()
+				if pg != nil {
+					advance(i, pg, settle)
+					vSch.mu.Lock()
+					g = vSch.gs[s.G]
+					vSch.mu.Unlock()
+				}
+			}
+		}
+		if g == nil {
 			skipped++ // an engine-only goroutine (timer / environment model)
 			vSchedLog("step %d g%d %s@%s: no such goroutine natively, skipped", i, s.G, s.Kind, s.Site)
 			continue
 		}
 		eff := vEffSite(s)
-		for tries := 0; ; tries++ {
-			if tries > 64 {
-				vSchedLog("step %d g%d: too many unmatched yield points", i, s.G)
-				break
-			}
-			if !vAwait(g, reach) {
-				// still inside an operation granted earlier (blocked natively)
-				vSch.mu.Lock()
-				same := g.lastSite == eff
-				vSch.mu.Unlock()
-				blockedN++
-				vSchedLog("step %d g%d %s@%s: goroutine not at a yield point (inside %s) same=%v", i, s.G, s.Kind, eff, g.lastSite, same)
-				break
-			}
+		advance(i, g, reach)
+		if !vAwait(g, 0) {
+			// still inside an operation granted earlier (blocked natively, or the second
+			// phase of a writer lock)
 			vSch.mu.Lock()
-			done, site := g.done, g.site
+			same := g.lastSite == eff
 			vSch.mu.Unlock()
-			if done {
-				skipped++
-				vSchedLog("step %d g%d %s@%s: goroutine has finished, skipped", i, s.G, s.Kind, eff)
-				break
+			if !same {
+				blockedN++
 			}
-			if site == eff {
-				c := vFree
-				if s.Kind == "select" {
-					c = s.Case
+			vSchedLog("step %d g%d %s@%s: goroutine not at a yield point (inside %s)", i, s.G, s.Kind, eff, g.lastSite)
+			continue
+		}
+		vSch.mu.Lock()
+		done, site := g.done, g.site
+		vSch.mu.Unlock()
+		if done {
+			skipped++
+			vSchedLog("step %d g%d %s@%s: goroutine has finished, skipped", i, s.G, s.Kind, eff)
+			continue
+		}
+		if site != eff {
+			// the engine's step has no native yield point (stub code, second lock phase)
+			skipped++
+			vSchedLog("step %d g%d %s@%s: no native yield point (goroutine is at %s), skipped", i, s.G, s.Kind, eff, site)
+			continue
+		}
+		c := vFree
+		if s.Kind == "select" {
+			c = s.Case
+		}
+		var pg *vGor
+		if s.Partner != 0 {
+			vSch.mu.Lock()
+			pg = vSch.gs[s.Partner]
+			vSch.mu.Unlock()
+			if pg != nil {
+				advance(i, pg, reach)
+				vSch.mu.Lock()
+				pok := pg.waiting && pg.site == s.PSite
+				vSch.mu.Unlock()
+				if pok {
+					vGrant(pg, s.PCase)
+				} else {
+					vSchedLog("step %d: partner g%d is not at %s", i, s.Partner, s.PSite)
+					pg = nil
 				}
-				var pg *vGor
-				if s.Partner != 0 {
-					vSch.mu.Lock()
-					pg = vSch.gs[s.Partner]
-					vSch.mu.Unlock()
-					if pg != nil && vAwait(pg, reach) {
-						vSch.mu.Lock()
-						pok := pg.waiting && pg.site == s.PSite
-						vSch.mu.Unlock()
-						if pok {
-							vGrant(pg, s.PCase)
-						} else {
-							pg = nil
-						}
-					} else {
-						pg = nil
-					}
-				}
-				vSchedLog("step %d grant g%d %s@%s case=%d partner=%d", i, s.G, s.Kind, eff, c, s.Partner)
-				vGrant(g, c)
-				granted++
-				if s.Kind == "wlock-announce" {
-					// the real Lock may block until the readers have left: the acquire step follows
-					vAwait(g, 20*time.Millisecond)
-				} else if !vAwait(g, settle) {
-					blockedN++
-					vSchedLog("step %d g%d: did not come back within %v", i, s.G, settle)
-				}
-				if pg != nil {
-					vAwait(pg, settle)
-				}
-				break
 			}
-			if s.Kind == "wlock-acquire" || lookahead(i, s.G, site) {
-				// the engine's step has no native yield point
-				skipped++
-				vSchedLog("step %d g%d %s@%s: no native yield point (goroutine is at %s), skipped", i, s.G, s.Kind, eff, site)
-				break
+		}
+		vSchedLog("step %d grant g%d %s@%s case=%d partner=%d", i, s.G, s.Kind, eff, c, s.Partner)
+		vGrant(g, c)
+		granted++
+		if s.Kind == "wlock-announce" {
+			// the real Lock may block until the readers have left: the acquire step follows
+			vAwait(g, 20*time.Millisecond)
+		} else {
+			if !vAwait(g, settle) {
+				blockedN++
+				vSchedLog("step %d g%d: did not come back within %v", i, s.G, settle)
 			}
-			// a native yield point the engine has no step for
-			extra++
-			vSchedLog("step %d g%d wants %s@%s: passing unmatched native yield point %s", i, s.G, s.Kind, eff, site)
-			vGrant(g, vFree)
+			advance(i+1, g, settle)
+		}
+		if pg != nil {
+			advance(i+1, pg, settle)
 		}
 	}
 	// the goroutine of the last step runs into the failure; give it a moment, then let
